@@ -1,13 +1,5 @@
-// Shared by core_template_render / core_template_repr: the writer and property mirrors and what
-// rendering a part sequence means.
-// ---------- trusted mirrors ----------
-// `emit_core::value::Value` (core/src/value.rs:30, a `value_bag::ValueBag`): opaque; `id` is what it holds
-#[verifier::external_body]
-pub struct Value<'v> { v: &'v u8 }
-impl<'v> Value<'v> {
-    pub uninterp spec fn id(&self) -> int;
-}
-
+// Shared by core_template_render / core_template_repr: the writer mirror (call level) and what
+// rendering a part sequence means. Needs _shared/template_props.rs.
 // What a writer was asked to do, and whether it said Ok (rule R9: the template-aware writer is an
 // effect sink; its methods are the only observable output of rendering). The calls are recorded in a
 // ghost trace handed to every sink call rather than in a view of the writer, because the real
@@ -35,20 +27,6 @@ pub trait Write {
         ensures final(out).calls == old(out).calls.push((Call::HoleFmt(label.spec_bytes(), value.id(), formatter), r is Ok));
     fn write_hole_label(&mut self, label: &str, Tracked(out): Tracked<&mut Out>) -> (r: fmt::Result)
         ensures final(out).calls == old(out).calls.push((Call::HoleLabel(label.spec_bytes()), r is Ok));
-}
-
-// Mirror of `props::Props` (core/src/props.rs:57 `fn get<'v, K: ToStr>(&'v self, key: K) -> Option<Value<'v>>`,
-// here with `K = &str`). `first` is C02's contract: the first value enumerated for the key, if any.
-pub trait Props {
-    spec fn first(&self, key: Seq<u8>) -> Option<int>;
-    fn get<'v>(&'v self, key: &str) -> (r: Option<Value<'v>>)
-        ensures match r { Some(v) => self.first(key.spec_bytes()) == Some(v.id()), None => self.first(key.spec_bytes()) is None };
-}
-// props.rs:126-147 `impl<'a, P: Props + ?Sized> Props for &'a P`: forwards to `**self`
-impl<'a, P: Props + ?Sized> Props for &'a P {
-    open spec fn first(&self, key: Seq<u8>) -> Option<int> { (**self).first(key) }
-    #[verifier::external_body]
-    fn get<'v>(&'v self, key: &str) -> (r: Option<Value<'v>>) { (**self).get(key) }
 }
 
 // ---------- what rendering a part means ----------
